@@ -652,7 +652,7 @@ def corpus(ck, tmp):
 def hier_stream(ck, tmp):
     rng = ck.rng
     cases = []
-    nh = 40 if not ck.deep else 300
+    nh = 40 if not ck.deep else 220
     for i in range(nh):
         depth = [1, 2, 3, 3][i % 4]
         only = (i % 5 == 4)
